@@ -49,6 +49,10 @@ def gstep (c : Cfg) (σ : RunSt) (g : Ghost) : Op → Ghost
     match (produce c σ.n .fail).2.1 with
     | .qdel b :: _ => { g with released := g.released ++ [b] }
     | _ => g
+  | .produceCancelled aware =>
+    match (produce c σ.n (cancelEx c σ.n aware)).2.1 with
+    | .qdel b :: _ => { g with released := g.released ++ [b] }
+    | _ => g
   | .produceSame =>
     match (produce c σ.n .ok .same).2.1 with
     | .qdel b :: _ => { g with released := g.released ++ [b] }
